@@ -1196,7 +1196,7 @@ func (d *Ledger) actRogue() {
 		tok = d.pickTok(d.NFT)
 	}
 	var c *world.Call
-	switch d.R.Intn(10) {
+	switch d.R.Intn(11) {
 	case 0:
 		c = d.call("ESDTNFTCreateRoleTransfer", caller, target, tok, nb(uint64(d.R.Intn(3))))
 	case 1:
@@ -1236,6 +1236,12 @@ func (d *Ledger) actRogue() {
 			c = d.call("MultiESDTNFTTransfer", caller, target, nb(1), ntok, nb(e.TokenMetaData.Nonce), pb)
 		}
 		c.CT = vmcommon.CallType(d.R.Intn(4))
+		if d.chance(50) {
+			c.CT = vmcommon.AsynchronousCallBack
+		}
+		if target == caller {
+			c.Rcpt = d.W.Addr(d.otherAcct(caller))
+		}
 	}
 	d.record("exec", d.shardOfName(caller), c)
 }
